@@ -11,6 +11,10 @@ tvars == <<rid, l, conn, rbuf, eof, ioerr, poisoned, pend>>
 Ev == Runs[rid].events[l]
 Limit == Runs[rid].limit
 
+RECURSIVE ConcatInOrder(_, _)
+ConcatInOrder(texts, order) == IF Len(order) = 0 THEN <<>>
+                               ELSE Utf8Encode(texts[order[1]]) \o ConcatInOrder(texts, Tail(order))
+
 ReadDoneOK(e) ==
     IF poisoned \/ ioerr THEN
         \* after an over-long line or an I/O error only the error family is determined
@@ -42,6 +46,12 @@ Step ==
          [] e.op = "read_done" -> ReadDoneOK(e) /\ pend' = pend - 1 /\ UNCHANGED <<conn, eof, ioerr>>
          [] e.op = "write" ->
               /\ IF e.fault = "none" THEN (e.res = "ok" /\ e.peer = Utf8Encode(e.s)) ELSE e.res = "terr"
+              /\ UNCHANGED <<conn, rbuf, eof, ioerr, poisoned, pend>>
+         [] e.op = "cwrite" ->
+              \* several tasks wrote concurrently under back pressure: every call succeeded and the bytes of the
+              \* lines are on the stream in call order, each exactly once
+              /\ \A k \in 1..Len(e.results) : e.results[k] = "ok"
+              /\ e.peer = ConcatInOrder(e.texts, e.order)
               /\ UNCHANGED <<conn, rbuf, eof, ioerr, poisoned, pend>>
          [] e.op = "disconnect" ->
               e.res = "ok" /\ conn' = "closed" /\ UNCHANGED <<rbuf, eof, ioerr, poisoned, pend>>
